@@ -40,6 +40,55 @@ fn full_of<M: ShortMessage>(m: &M) -> Full {
     }
 }
 
+/// the same observation, every method called through a `&&&M` receiver: today these calls
+/// auto-dereference to `M`'s implementation; an implementation for references (`impl
+/// ShortMessage for &T`) would be picked instead and is one more implementation that has to
+/// agree
+#[inline]
+fn full_via_references<M: ShortMessage>(m: &M) -> Full {
+    let r = &&m;
+    Full {
+        acc: Acc {
+            ty: r.r#type(),
+            sup: r.super_type(),
+            main: r.main_category(),
+            channel: r.channel(),
+            key_number: r.key_number(),
+            velocity: r.velocity(),
+            controller_number: r.controller_number(),
+            control_value: r.control_value(),
+            program_number: r.program_number(),
+            pressure_amount: r.pressure_amount(),
+            pitch_bend_value: r.pitch_bend_value(),
+            is_note_on: r.is_note_on(),
+            is_note_off: r.is_note_off(),
+            is_note: r.is_note(),
+            structured: r.to_structured(),
+        },
+        bytes: r.to_bytes(),
+        getters: (r.status_byte(), r.data_byte_1(), r.data_byte_2()),
+    }
+}
+
+fn references<A>(an: &'static str, s: u8, d1: u8, d2: u8, rep: &mut Report)
+where
+    A: ShortMessage + ShortMessageFactory + Copy,
+{
+    let r = api("ShortMessage methods through reference receivers", || {
+        let a = A::from_bytes((s, u7(d1), u7(d2))).ok()?;
+        Some((full_of(&a), full_via_references(&a)))
+    });
+    match r {
+        Some(Some((direct, via))) if direct == via => {}
+        _ => crate::viol!(
+            rep,
+            format!("C03:reference-receiver-differs:{}:{}", an, type_name(s)),
+            format!("({:#04x},{},{}) as {}: the trait methods called through a reference-to-reference receiver give {:?}", s, d1, d2, an, r.map(|x| x.map(|(d, v)| (d.getters, v.getters)))),
+            json!({"kind":"triple","carrier":an,"status":s,"d1":d1,"d2":d2,"call":"methods called on &&&message"})
+        ),
+    }
+}
+
 fn nb(b: (u8, U7, U7)) -> (u8, u8, u8) {
     (b.0, b.1.get(), b.2.get())
 }
@@ -151,7 +200,7 @@ where
 }
 
 pub fn run(cfg: &Cfg, rep: &mut Report) {
-    rep.rule("all 2^21 valid triples: accessor/byte vectors of Raw, Structured, Foreign (getters only) and ForeignBytes (overrides to_bytes) compared pairwise, and across to_other/from_other/to_structured for all 16 ordered carrier pairs; only tolerated difference: Structured reports information-free data bytes as zero; non-trivial = triple with a non-zero data byte");
+    rep.rule("all 2^21 valid triples: accessor/byte vectors of Raw, Structured, Foreign (getters only) and ForeignBytes (overrides to_bytes) compared pairwise, and across to_other/from_other/to_structured for all 16 ordered carrier pairs; only tolerated difference: Structured reports information-free data bytes as zero; non-trivial = triple with a non-zero data byte ; every method is also called through a reference-to-reference receiver (an implementation for &T would be picked there) and compared with the direct call");
     let stride: usize = if cfg.as_c18 && !cfg.thorough { 7 } else if cfg.secondary && !cfg.thorough { 3 } else { 1 };
     par(cfg, rep, |shard, n, rep| {
         let mut evals = 0u64;
@@ -180,7 +229,10 @@ pub fn run(cfg: &Cfg, rep: &mut Report) {
                         (Foreign, "Foreign", false),
                         (ForeignBytes, "ForeignBytes", false)
                     );
-                    evals += 3 + 16 * 3;
+                    references::<RawShortMessage>("Raw", s, d1, d2, rep);
+                    references::<StructuredShortMessage>("Structured", s, d1, d2, rep);
+                    references::<Foreign>("Foreign", s, d1, d2, rep);
+                    evals += 3 + 16 * 3 + 3;
                     if d1 != 0 || d2 != 0 {
                         nontrivial += 1;
                     }
